@@ -100,7 +100,7 @@ class PGPSignature(Armorable, ParentRef, PGPObject):
         """
         A ``list`` of preferred symmetric algorithms specified in this signature, if any. Otherwise, an empty ``list``.
         """
-        if 'PreferredSymmetricAlgorithms' in self._signature.subpackets:
+        if self._signature.subpackets['h_PreferredSymmetricAlgorithms']:
             return next(iter(self._signature.subpackets['h_PreferredSymmetricAlgorithms'])).flags
         return []
 
@@ -109,7 +109,7 @@ class PGPSignature(Armorable, ParentRef, PGPObject):
         """
         A ``list`` of preferred compression algorithms specified in this signature, if any. Otherwise, an empty ``list``.
         """
-        if 'PreferredCompressionAlgorithms' in self._signature.subpackets:
+        if self._signature.subpackets['h_PreferredCompressionAlgorithms']:
             return next(iter(self._signature.subpackets['h_PreferredCompressionAlgorithms'])).flags
         return []
 
@@ -166,7 +166,7 @@ class PGPSignature(Armorable, ParentRef, PGPObject):
         """
         A ``list`` of preferred hash algorithms specified in this signature, if any. Otherwise, an empty ``list``.
         """
-        if 'PreferredHashAlgorithms' in self._signature.subpackets:
+        if self._signature.subpackets['h_PreferredHashAlgorithms']:
             return next(iter(self._signature.subpackets['h_PreferredHashAlgorithms'])).flags
         return []
 
@@ -213,7 +213,7 @@ class PGPSignature(Armorable, ParentRef, PGPObject):
         """
         A ``set`` of :py:obj:`~constants.KeyFlags` specified in this signature, if any. Otherwise, an empty ``set``.
         """
-        if 'KeyFlags' in self._signature.subpackets:
+        if self._signature.subpackets['h_KeyFlags']:
             return next(iter(self._signature.subpackets['h_KeyFlags'])).flags
         return set()
 
@@ -222,7 +222,7 @@ class PGPSignature(Armorable, ParentRef, PGPObject):
         """
         The preferred key server specified in this signature, if any. Otherwise, an empty ``str``.
         """
-        if 'PreferredKeyServer' in self._signature.subpackets:
+        if self._signature.subpackets['h_PreferredKeyServer']:
             return next(iter(self._signature.subpackets['h_PreferredKeyServer'])).uri
         return ''
 
@@ -231,7 +231,7 @@ class PGPSignature(Armorable, ParentRef, PGPObject):
         """
         A ``list`` of :py:obj:`~constants.KeyServerPreferences` in this signature, if any. Otherwise, an empty ``list``.
         """
-        if 'KeyServerPreferences' in self._signature.subpackets:
+        if self._signature.subpackets['h_KeyServerPreferences']:
             return next(iter(self._signature.subpackets['h_KeyServerPreferences'])).flags
         return []
 
